@@ -5,3 +5,4 @@
 pub mod fixture;
 pub mod util;
 pub mod poolfix;
+pub mod poolhist;
